@@ -432,7 +432,7 @@ func splitMarked(c *harness.Case, out string, n int, res string) []string {
 var jsonInterp *fqx.Interp
 
 func TestJSON(t *testing.T) {
-	harness.Rapid(t, 560, 14000, func(rt *rapid.T, c *harness.Case) {
+	harness.Rapid(t, 480, 14000, func(rt *rapid.T, c *harness.Case) {
 		n := rapid.IntRange(4, 16).Draw(rt, "nvalues")
 		vals := make([]jval, n)
 		flags := map[string]bool{}
